@@ -273,7 +273,7 @@ type ItemSc struct {
 }
 
 type ReqSc struct {
-	Version    int      `json:"version"`               // index into allVersions; 5 = unsupported 2.0; 6 = 0.9
+	Version    int      `json:"version"`               // index into allVersions; 5 = unsupported 2.0; 6 = 0.9; 7 = 0.0; 8 = 1.5
 	Option     int      `json:"option,omitempty"`      // 0 unset 1 continue 2 stop 3 undo
 	CountDelta int      `json:"count_delta,omitempty"` // header BatchCount = len(items) + delta; -1000: -1, -2000: MinInt32, 1000: MaxInt32 (a tree that sizes a buffer by it dies of an out-of-memory fatal error: reported as <id>.process-killed)
 	Items      []ItemSc `json:"items"`
@@ -311,6 +311,10 @@ func versionOf(i int) kmip.ProtocolVersion {
 		return allVersions[i]
 	case i == 5:
 		return kmip.ProtocolVersion{ProtocolVersionMajor: 2, ProtocolVersionMinor: 0}
+	case i == 7:
+		return kmip.ProtocolVersion{} // 0.0: what an absent or zeroed version element decodes to
+	case i == 8:
+		return kmip.ProtocolVersion{ProtocolVersionMajor: 1, ProtocolVersionMinor: 5}
 	default:
 		return kmip.ProtocolVersion{ProtocolVersionMajor: 0, ProtocolVersionMinor: 9}
 	}
